@@ -413,8 +413,9 @@ def _fit_peak_single_model(
     fit_requirements: FitRequirements,
 ) -> FitResult:
     model = background + peak
-    if len(data) < len(model.param_names):
-        # Not enough points to fit all parameters.
+    if len(data) <= len(model.param_names):
+        # Not enough points to fit all parameters and keep at least one
+        # degree of freedom for the goodness-of-fit statistics.
         # This must be checked before guessing initial parameters because
         # the guesses fail for (nearly) empty windows.
         return FitResult.for_too_narrow_window(
